@@ -79,4 +79,24 @@ pub(crate) mod verif_rig_multi {
         }
         ms.members[idx].is_zombie = false;
     }
+
+    // ---- recording stand-in for MultiState::draw in the harnesses about the operations AROUND a multi draw (suspend): CBMC does
+    //      not finish the real function; what is recorded is when it is called, with which force flag, and the row accounting
+    //      it finds ----
+    pub(crate) static mut MDRAW_CALLS: usize = 0;
+    pub(crate) static mut MDRAW_FORCED: bool = false;
+    pub(crate) static mut MDRAW_EXTRA: bool = false;
+    pub(crate) static mut MDRAW_ZOMBIES: usize = usize::MAX;
+    pub(crate) static mut MDRAW_LAST: usize = usize::MAX;
+    pub(crate) fn record_multi_draw(ms: &mut MultiState, force_draw: bool, extra_lines: Option<Vec<LineType>>, _now: Instant) -> io::Result<()> {
+        unsafe {
+            MDRAW_CALLS += 1;
+            MDRAW_FORCED = force_draw;
+            MDRAW_EXTRA = extra_lines.is_some();
+            MDRAW_ZOMBIES = ms.zombie_lines_count.as_usize();
+            MDRAW_LAST = target_last(&ms.draw_target);
+        }
+        std::mem::forget(extra_lines);
+        Ok(())
+    }
 }
